@@ -1,6 +1,7 @@
 import ClaripyProofs.Lemmas.Solver.CachelessHistory
 import ClaripyProofs.Lemmas.Solver.SolverConsistent
 import ClaripyProofs.Lemmas.Solver.StringsHistory
+import ClaripyProofs.Lemmas.Solver.SolverChildHistory
 /-!
 # C11 — solver answers after any history (Solver, SolverCacheless, SolverStrings)
 
@@ -51,7 +52,7 @@ def C11_full (cls : SolverClass) : Prop :=
 -- below (`C11_cacheless_refines`, `C11_solver_refines`) use the relativised forms (`Reg`, `SimpOn`, `BuildOn`, `PickOk` —
 -- `PickValid` as stated asks a duplicate-free choice from lists WITH duplicates and is unsatisfiable), and
 -- `C11_hypotheses_consistent` / `C11_solver_hypotheses_consistent` show those are jointly satisfiable.
--- NOT proved of `C11_full`: the classes other than SolverCacheless, SolverStrings and Solver; `track=True`; `reuse_z3_solver`; the call
+-- NOT proved of `C11_full`: the classes other than SolverCacheless, SolverStrings, Solver and SolverCompositeChild; `track=True`; `reuse_z3_solver`; the call
 -- `unsat_core`; for SolverCacheless / SolverStrings also `batch_eval` and pickling inside a history (in scope for `Solver`).
 
 /-- `_satisfiable` over an exact oracle is exact and leaves the solver object's frames alone -/
@@ -291,6 +292,40 @@ theorem C11_solver_hypotheses_consistent :
 /-- non-vacuity: the theorem applies to that environment and history -/
 example : ∀ x ∈ runHist cEnv .Solver (World.init false false) [[]] cHist, JudgeOrGiveUp cEnv x.1 x.2.1 x.2.2 :=
   C11_solver_refines_or_gives_up cHyps cHist cHist_ok
+
+/-! ### SolverCompositeChild (what SolverComposite keeps per group of variables), whole histories -/
+
+/-- **SolverCompositeChild refines the specification**: ConstraintDeduplicator, SatCache, SimplifySkipper, ModelCache over
+FullFrontend (generated MRO) — the caching layers of `Solver` in another order, no constraint filter, no concrete handler (so
+the queried expressions are symbolic: `InScopeC`), no expansion.  Same hypotheses and world invariant as `C11_solver_refines`. -/
+theorem C11_child_refines {E : Env} {R : Con → Prop} {RE : Exp → Prop} (H : SolverHyps R RE E) (hist : List (Nat × Op))
+    (hok : HistOkC R RE 1 hist) :
+    ∀ x ∈ runHist E .SolverCompositeChild (World.init false false) [[]] hist,
+      x.2.2 ≠ .err .giveUp → Judge x.1 x.2.1 x.2.2 :=
+  ch_hist H hist _ _ (tinvS_init R RE E) hok
+
+theorem C11_child_refines_or_gives_up {E : Env} {R : Con → Prop} {RE : Exp → Prop} (H : SolverHyps R RE E)
+    (hist : List (Nat × Op)) (hok : HistOkC R RE 1 hist) :
+    ∀ x ∈ runHist E .SolverCompositeChild (World.init false false) [[]] hist, JudgeOrGiveUp E x.1 x.2.1 x.2.2 :=
+  ch_hist_giveup H hist _ _ (tinvS_init R RE E) hok
+
+theorem C11_child_step {E : Env} {R : Con → Prop} {RE : Exp → Prop} (H : SolverHyps R RE E) (w : World)
+    (Us : List (List Con)) (hw : TInvS R RE E Us w) (i : Nat) (hi : i < w.fes.length) (op : Op) (hop : InScopeC R RE op) :
+    JudgeOrGiveUp E (usersAfter (Us.getD i []) op) op (step E .SolverCompositeChild w i op).1 ∧
+    TInvS R RE E (usersAll Us i op) (step E .SolverCompositeChild w i op).2 :=
+  ch_step H w Us hw i hi op hop
+
+/-- non-vacuity: a history in scope for the child class in the consistent environment -/
+example : ∀ x ∈ runHist cEnv .SolverCompositeChild (World.init false false) [[]]
+      [(0, .add [cEq]), (0, .max cExp [] true), (0, .branch), (1, .batchEval [cExp] 3 []), (1, .add [cCon]),
+       (0, .pickle), (0, .eval cExp 2 [cCon])], JudgeOrGiveUp cEnv x.1 x.2.1 x.2.2 := by
+  refine C11_child_refines_or_gives_up cHyps _ ?_
+  have hc : cR cCon := Or.inr (Or.inl rfl)
+  have hq : cR cEq := Or.inr (Or.inr (Or.inl rfl))
+  have he : cRE cExp := rfl
+  simp only [HistOkC, InScopeC, List.mem_singleton, forall_eq, and_true]
+  exact ⟨by omega, hq, by omega, ⟨he, rfl⟩, by omega, trivial, by omega, ⟨by simp, ⟨he, rfl⟩, by omega⟩, by omega, hc,
+    by omega, trivial, by omega, he, rfl, by omega⟩
 
 /-! ### why `EvalComplete` is a hypothesis
 
